@@ -22,11 +22,12 @@ from lib import S, B, exn_code, CaseTimeout
 
 GEN = c03.GEN        # coq/Model/Csv.v and Ndjson.v take the text layer of a mode-r file from coq/Model/Workbook.v (C03's model)
 RULE = ("csv-shapes = EVERY table of 0-2 rows x 0-2 cells, each cell empty or one of: a letter, the delimiter, the quote character, LF "
-        "(993 tables, comma; exhaustive); csv-clean = random tables (0-5 rows x 0-4 cells, ragged) over 8 delimiters (comma, TAB, semicolon, "
+        "(993 tables, comma; exhaustive) and every 1x1, 1x2, 2x1 table over (empty, a, CR, LF, CR LF, a CR b); csv-clean = random tables (0-5 rows x 0-4 cells, ragged) over 8 delimiters (comma, TAB, semicolon, "
         "blank, bar, a letter, a non-ASCII letter, a non-BMP character), cells drawn from a pool (quotes, doubled quotes, the delimiter, LF, "
         "leading/trailing blanks, empty, NUL, VT FF FS GS RS, U+0085 U+2028 U+2029, non-ASCII, non-BMP, long words) and random strings over "
-        "(delimiter, quote, LF, letters, blank), no carriage return; csv-cr = the same with CR and CR LF in cells (known finding for the "
-        "library's reader, no exemption for the newline='' reader); csv-limit = one cell of exactly field_size_limit() characters and one "
+        "(delimiter, quote, LF, letters, blank); a fifth of the tables also draws on a carriage-return pool (CR, CR LF, LF CR, CR at either "
+        "end of a cell, beside quotes and delimiters) - no exemption: the library's reader and the newline='' reader must both return the "
+        "table; csv-limit = one cell of exactly field_size_limit() characters and one "
         "of one more; csv-text = EVERY text of length <= 5 (thorough 7) over (comma, quote, CR, LF, a) and random texts to length 14 over "
         "(delimiter, quote, CR, LF, two letters, blank, a non-ASCII and a non-BMP character, U+2028), written as the content of a file and "
         "read through the library's unpacker and through csv.reader over a newline='' file; csv-lines = random lists of str handed to "
@@ -118,15 +119,18 @@ def inputs(ctx):
     tables = [[]] + [[r] for r in row_shapes] + [[r, s] for r in row_shapes for s in row_shapes]
     for t in tables:
         yield "csv-shapes", {"kind": "csv", "d": ",", "rows": t}
-    for i in range(250 if quick else 4000):
+    # every table whose cells are empty, a letter, CR, LF or CR LF (one row of 1-2 cells, or two rows of one cell)
+    ctx.exhaustive.append("csv_tables_cells_in(empty,a,CR,LF,CRLF,aCRb)_shapes(1x1,1x2,2x1)")
+    crs = ["", "a", "\r", "\n", "\r\n", "a\rb"]
+    for t in [[[c]] for c in crs] + [[[c, e]] for c in crs for e in crs] + [[[c], [e]] for c in crs for e in crs]:
+        yield "csv-shapes", {"kind": "csv", "d": ",", "rows": t}
+    for i in range(310 if quick else 4800):
         d = rng.choice(DELIMS)
-        yield "csv-clean", {"kind": "csv", "d": d, "rows": _csv_table(rng, d, [])}
-    for i in range(60 if quick else 800):
-        d = rng.choice(DELIMS)
-        rows = _csv_table(rng, d, CR_CELLS)
-        if not any("\r" in c for r in rows for c in r):
+        # a fifth of the tables draws on the carriage-return pool (CR, CR LF, LF CR, CR at either end, beside quotes and delimiters)
+        rows = _csv_table(rng, d, CR_CELLS if i % 5 == 0 else [])
+        if i % 5 == 0 and not any("\r" in c for r in rows for c in r):
             rows.append([rng.choice(CR_CELLS)])
-        yield "csv-cr", {"kind": "csv", "d": d, "rows": rows}
+        yield "csv-clean", {"kind": "csv", "d": d, "rows": rows}
     limit = csv.field_size_limit()
     yield "csv-limit", {"kind": "csv", "d": ",", "rows": [["k", "a" * limit], ["after"]]}
     yield "csv-limit", {"kind": "csv", "d": ",", "rows": [["k", "a" * (limit + 1)], ["after"]]}
@@ -261,7 +265,7 @@ def describe(inp):
         rows = inp["rows"]
         if rows and any(len(c) > 200 for r in rows for c in r):
             rows = [[c if len(c) <= 200 else f"<{len(c)} x {c[0]!r}>" for c in r] for r in rows]
-        return f"csv.writer(delimiter={inp['d']!r}) rows={rows!r}, read back by the library (mode r) and by csv.reader (newline='')"
+        return f"csv.writer(delimiter={inp['d']!r}) rows={rows!r}, read back by the library's unpacker and by csv.reader over open(newline='')"
     if k == "ndjson":
         return f"json.dumps lines ensure_ascii={inp['ea']} names={inp['names']!r} rows={inp['rows']!r}, read back by the library"
     if k == "csvtext":
